@@ -11,10 +11,10 @@ def register(prop, J):
               "threshold is within 1 of the query length, or the envelope is a malformed/hand-written one; distinct by "
               "(level, verb/kind, path, query, body, threshold or malformed class+variant)",
          jobs=[
-             J("fn-v2", "v2", "tunnelprops", fn, checks=(60000, 3000000), shards=(4, 16)),
-             J("wire-v2", "v2", "tunnelprops", wire, checks=(16000, 480000), shards=(8, 16)),
-             J("fn-v1", "v1", "tunnelprops", fn, checks=(20000, 1000000), shards=(2, 16)),
-             J("wire-v1", "v1", "tunnelprops", wire, checks=(6000, 160000), shards=(6, 16)),
+             J("fn-v2", "v2", "tunnelprops", fn, checks=(160000, 6000000), shards=(8, 16)),
+             J("wire-v2", "v2", "tunnelprops", wire, checks=(36000, 640000), shards=(12, 16)),
+             J("fn-v1", "v1", "tunnelprops", fn, checks=(60000, 2000000), shards=(4, 16)),
+             J("wire-v1", "v1", "tunnelprops", wire, checks=(16000, 240000), shards=(8, 16)),
          ],
          level_text="generated-input search against a reference model of tunnelling (decision rule, expected request, independent "
                     "envelope writer): Decode(Encode(x)) on requests re-parsed off the wire for arbitrary query bytes and bodies; "
@@ -33,4 +33,4 @@ def register(prop, J):
                       "invalid UTF-8 are exercised at function level, where no URL is involved",
                       "a multipart envelope cut inside the closing delimiter's trailing '--CRLF' is not counted as malformed",
                       "override header on a non-POST request is not tunnelling: only 'no 5xx, no panic' is asserted",
-                      "5xx response bodies (stack traces) are compared by status only"])
+                      "error responses (status >= 400) of the tunnelled and the untunnelled call are compared by status and headers, not by message text (the text depends on the server's map iteration order even between two identical requests)"])
